@@ -6,7 +6,7 @@
 (*     acts  a SymMem history (TLC-generated); obs[j] the tree eval_abs       *)
 (*     returned for the load acts[j]; cells the projected pool_mem            *)
 (*     <<[a (address tree), w, v (value tree)]>> after the last action.       *)
-(*     Clauses: C07.noexc, C07.welltyped, C07.width, C07.value (each load,    *)
+(*     Clauses: C07.noexc, C07.terminates, C07.welltyped, C07.width, C07.value (each load,    *)
 (*     every valuation, against the concrete SymMem bytes), C07.pool_*        *)
 (*     (SymPool invariants on the projected pool: typed cells, no overlap,    *)
 (*     cells cover exactly the written bytes, flattened values = memory).     *)
@@ -99,7 +99,7 @@ CatLoads(rec, js) == IF js = {} THEN <<>> ELSE LET j == CHOOSE j \in js : \A k \
 HVerdict(rec) ==
    IF rec.st # "ok" THEN
       LET h == rec.acts j == rec.excj IN
-      <<[clause |-> "C07.noexc", j |-> j,
+      <<[clause |-> IF rec.st = "timeout" THEN "C07.terminates" ELSE "C07.noexc", j |-> j,
          path |-> IF h[j].op = "ld" THEN SP!LoadPath(SP!PoolAfter(h, 1, j - 1, {}), h[j].b, h[j].off, h[j].w \div 8) ELSE "store"]>>
    ELSE CatLoads(rec, LoadIdx(rec.acts)) \o HPoolBad(rec)
 
@@ -174,7 +174,7 @@ ValueClauses(rec, okreg, okrb, cellsok) ==
         \o (IF badcell = {} THEN <<>> ELSE <<[clause |-> "C07.pool_value", cell |-> MinOf(badcell), lastpaths |-> lp]>>)
         \o (IF res[1].struct = <<>> THEN <<>> ELSE <<[clause |-> res[1].struct[1].clause, lastpaths |-> lp]>>)
 PVerdict(rec) ==
-   IF rec.st # "ok" THEN <<[clause |-> "C07.noexc"]>>
+   IF rec.st # "ok" THEN <<[clause |-> IF rec.st = "timeout" THEN "C07.terminates" ELSE "C07.noexc"]>>
    ELSE IF \E t \in InputTrees(rec) : ~WellTyped(t) THEN <<[clause |-> "input.illtyped_lifted_aff"]>>
    ELSE LET unb == (UNION {IF WellTyped(t) THEN Ids(t) ELSE {} : t \in InputTrees(rec) \cup OutputTrees(rec)})
                      \ ((DOMAIN rec.envs[1].id) \cup {rec.pool0[i].n : i \in 1..Len(rec.pool0)}) IN
